@@ -340,3 +340,11 @@ func buildFixture(root string) (*fixture, error) {
 	}
 	return f, nil
 }
+
+func mustDecode(prov []byte) *clearsign.Block {
+	b, _ := clearsign.Decode(prov)
+	if b == nil {
+		panic("c17 harness: own signature does not decode")
+	}
+	return b
+}
